@@ -1,7 +1,7 @@
 (* Extraction of the executable model to OCaml.  Only ExtrOcamlBasic is used: bool, option, unit, list, prod,
    sumbool, sumor map to OCaml's; nat, positive, N, Z stay the extracted Coq datatypes. *)
 From Coq Require Import Extraction ExtrOcamlBasic.
-From DSG Require Import Base Constraint DesVar Dsg Sel Problem Metric Matrix Proc Coding ConnChoice Sup Timeout Identity Selector Cache Persist.
+From DSG Require Import Base Constraint DesVar Dsg Sel Problem Metric Matrix Proc Coding ConnChoice Sup Timeout Identity Selector Cache Persist Neighborhood.
 Extraction "dsgm_model.ml" Base.memN Base.memZ
   Constraint.valid_row Constraint.valid_idx_rows Constraint.idx_okb Constraint.removed_options
   Constraint.pre_removed Constraint.count_max
@@ -18,4 +18,5 @@ Extraction "dsgm_model.ml" Base.memN Base.memZ
   Identity.same_graph
   Selector.select Selector.get_best Selector.equalize
   Cache.cache_key Cache.ckey_eqb
-  Persist.prun_ids.
+  Persist.prun_ids
+  Neighborhood.neighborhood.
